@@ -448,6 +448,7 @@ type ob struct {
 	St       string     `json:"st"`
 	TRun     bool       `json:"tRun"`
 	WsOpen   bool       `json:"wsOpen"`
+	Buf      int        `json:"buf"`
 	Ev       []vh.Event `json:"ev"`
 	Panicked bool       `json:"panicked"`
 	Hung     bool       `json:"hung"`
@@ -527,7 +528,7 @@ func (e *endpoint) observe(panicked, hung bool) (ob, expect) {
 		ev = []vh.Event{}
 	}
 	e.mark += len(ev) // nothing the real code does is ever dropped: a late event is seen by the next observation
-	o := ob{St: stName(s.State), TRun: s.TimerRunning, WsOpen: !e.w.isClosed(), Ev: ev, Panicked: panicked, Hung: hung}
+	o := ob{St: stName(s.State), TRun: s.TimerRunning, WsOpen: !e.w.isClosed(), Buf: s.BufLen, Ev: ev, Panicked: panicked, Hung: hung}
 	stored := "none"
 	if s.RemoteShipID != "" {
 		stored = absID(s.RemoteShipID)
